@@ -279,7 +279,49 @@ Proof. exact FormOpsAgree.formops_subst_agrees. Qed.
 Theorem C14_formops_subst_brs_agrees : forall old new b, FormIR.ir_subst_brs FormOps.table old new b = Subst.subst_brs old new b.
 Proof. exact FormOpsAgree.formops_subst_brs_agrees. Qed.
 
+(* FreeNames of the form types and the four list helpers it is written with (translated as small
+   list programs): their interpretation is `Subst.free_names` / `append_if_not_self` / `remove_bound` /
+   `name_exists` / `merge_names` — which bound names are removed, from which sub-list, merged how. *)
+Theorem C14_formops_helpers_wf : FormIR.helpers_ok FormOps.table = true.
+Proof. exact FormOpsAgree.formops_helpers_wf. Qed.
+Theorem C14_formops_append_agrees : forall n l, FormIR.ir_append_if_not_self FormOps.table n l = Subst.append_if_not_self n l.
+Proof. exact FormOpsAgree.formops_append_agrees. Qed.
+Theorem C14_formops_remove_agrees : forall l b, FormIR.ir_remove_bound FormOps.table l b = Subst.remove_bound l b.
+Proof. exact FormOpsAgree.formops_remove_agrees. Qed.
+Theorem C14_formops_exists_agrees : forall l c, FormIR.ir_name_exists FormOps.table l c = Subst.name_exists l c.
+Proof. exact FormOpsAgree.formops_exists_agrees. Qed.
+Theorem C14_formops_merge_agrees : forall a b, FormIR.ir_merge_names FormOps.table a b = Subst.merge_names a b.
+Proof. exact FormOpsAgree.formops_merge_agrees. Qed.
+Theorem C14_formops_free_names_agrees : forall f, FormIR.ir_free_names FormOps.table f = Subst.free_names f.
+Proof. exact FormOpsAgree.formops_free_names_agrees. Qed.
+Theorem C14_formops_free_names_brs_agrees : forall acc b,
+  fold_left (FormIR.ir_merge_names FormOps.table) (FormIR.ir_free_names_brs FormOps.table b) acc = Subst.free_names_brs acc b.
+Proof. exact FormOpsAgree.formops_free_names_brs_agrees. Qed.
+(* FormHasContinuation's case list, and CopyForm: every case goes through the constructor of its own
+   type, every Form / slice field reaches the copy through a deep copy (no aliasing between the copy
+   and the original: `copy_table_ok`), and on the model's immutable terms CopyForm is the identity up
+   to the fields its constructors reset (`copy_norm`: to_drop of a forward, ProviderType of a call). *)
+Theorem C14_formops_has_continuation_agrees : forall f, FormIR.ir_has_continuation FormOps.table f = Forms.has_continuation f.
+Proof. exact FormOpsAgree.formops_has_continuation_agrees. Qed.
+Theorem C14_formops_copy_wf : FormIR.copy_table_ok FormOps.table = true.
+Proof. exact FormOpsAgree.formops_copy_wf. Qed.
+Theorem C14_formops_copy_agrees : forall f, FormIR.ir_copy FormOps.table f = FormIR.copy_norm f.
+Proof. exact FormOpsAgree.formops_copy_agrees. Qed.
+Theorem C14_formops_copy_identity : forall f, FormIR.copy_stable f = true -> FormIR.ir_copy FormOps.table f = f.
+Proof. exact FormOpsAgree.formops_copy_identity. Qed.
+
 Print Assumptions C14_formops_structs.
 Print Assumptions C14_formops_subst_wf.
 Print Assumptions C14_formops_subst_agrees.
 Print Assumptions C14_formops_subst_brs_agrees.
+Print Assumptions C14_formops_helpers_wf.
+Print Assumptions C14_formops_append_agrees.
+Print Assumptions C14_formops_remove_agrees.
+Print Assumptions C14_formops_exists_agrees.
+Print Assumptions C14_formops_merge_agrees.
+Print Assumptions C14_formops_free_names_agrees.
+Print Assumptions C14_formops_free_names_brs_agrees.
+Print Assumptions C14_formops_has_continuation_agrees.
+Print Assumptions C14_formops_copy_wf.
+Print Assumptions C14_formops_copy_agrees.
+Print Assumptions C14_formops_copy_identity.
